@@ -24,10 +24,9 @@ theorem activeTimer_K (a : Alarm) (e : Env) (hs : a.sod < D) (hk : KInv a) : KIn
       intro _ hw
       rw [activeTimer_of_some a e nl hc] at hw ⊢
       simp only [armed, Bool.or_eq_false_iff, Bool.not_eq_false', decide_eq_true_eq] at hw
-      obtain ⟨_, _, _, _, heq, _, h2, _, _⟩ := activeTimer_spec a e hs hw.2 (by rw [activeTimer_of_some a e nl hc])
+      obtain ⟨_, T, d, _, heq, _, h2, _, _⟩ := activeTimer_spec a e hs hw.1.2 hw.2 (by rw [activeTimer_of_some a e nl hc])
       rw [activeTimer_of_some a e nl hc] at heq
-      have hT : (armed a e (subOff nl a.offset) (delayMs (w32 (subOff nl a.offset + U32 - e.sec)) e.ms)).target = _ :=
-        congrArg (fun p => p.1.target) heq
+      have hT := congrArg (fun p => p.1.target) heq
       simp only [armed_target] at hT ⊢
       simp only [armed_lastServed]
       have := (base_ge a e).2.2
@@ -42,20 +41,41 @@ theorem initAlarm_ainv (a : Alarm) (sod : Int) (m : List Bool) (wd : Bool) (h : 
   · unfold initAlarm
     split
     · exact h.sod
+    unfold initClassic
+    split
+    · exact h.sod
     · split
       · exact h.sod
       · rename_i hr
         split
         · exact h.sod
         · simp only [D_eq]; omega
-  · unfold initAlarm
-    split
-    · exact h.k
-    · split
-      · exact h.k
-      · split
-        · exact h.k
-        · exact kinv_of_idle (by simp)
+  · by_cases hr : (initAlarm a sod m wd).1.st = .running
+    · have : a.st = .running := by
+        cases hst : a.st with
+        | running => rfl
+        | none => exact absurd hr (initAlarm_st a sod m wd (by rw [hst]; simp))
+        | inited => exact absurd hr (initAlarm_st a sod m wd (by rw [hst]; simp))
+      have heq : (initAlarm a sod m wd).1 = a := by
+        unfold initAlarm initClassic; simp [this]
+      rw [heq]; exact h.k
+    · exact kinv_of_idle hr
+
+theorem initCron_ainv (a : Alarm) (x : Option Cron.Expr) (h : AInv a) : AInv (initCron a x).1 := by
+  refine ⟨initCron_inv a x h.inv, ?_, ?_⟩
+  · unfold initCron
+    repeat' split
+    all_goals exact h.sod
+  · by_cases hr : (initCron a x).1.st = .running
+    · have : a.st = .running := by
+        cases hst : a.st with
+        | running => rfl
+        | none => exact absurd hr (initCron_st a x (by rw [hst]; simp))
+        | inited => exact absurd hr (initCron_st a x (by rw [hst]; simp))
+      have heq : (initCron a x).1 = a := by
+        unfold initCron; simp [this]
+      rw [heq]; exact h.k
+    · exact kinv_of_idle hr
 
 theorem ainv_congr {a b : Alarm} (h : AInv a) (h1 : b.st = a.st) (h2 : b.timer = a.timer) (h3 : b.sod = a.sod)
     (h5 : b.wrapped = a.wrapped) (h6 : b.lastServed = a.lastServed) (h7 : b.target = a.target) : AInv b :=
@@ -282,8 +302,29 @@ theorem wCalUpdate_inv (w : World) (cal : Calendar) (h : WInv w) :
   unfold wCalUpdate
   exact calLoop_inv w.watch { w with cal := cal } false ⟨h.alarms, h.watch, h.log⟩ h.watch
 
+theorem wInitOp_inv (w : World) (j : Nat) (sod : Int) (m : List Bool) (wd : Bool) (h : WInv w) : WInv (wInitOp w j sod m wd).1 := by
+  unfold wInitOp
+  cases hg : w.get j with
+  | none => exact h
+  | some a => exact winv_put w j _ h (initAlarm_ainv a sod m wd (h.alarms j a hg))
+
+theorem wTz_inv (w : World) (j : Nat) (m : Int) (h : WInv w) : WInv (wTz w j m).1 := by
+  unfold wTz
+  cases hg : w.get j with
+  | none => exact h
+  | some a => exact winv_put w j _ h (ainv_congr (b := setTimezone a m) (h.alarms j a hg) rfl rfl rfl rfl rfl rfl)
+
+theorem wSetCb_inv (w : World) (j : Nat) (h : WInv w) : WInv (wSetCb w j).1 := by
+  unfold wSetCb
+  cases hg : w.get j with
+  | none => exact h
+  | some a => exact winv_put w j _ h (ainv_congr (b := { a with hasCb := true }) (h.alarms j a hg) rfl rfl rfl rfl rfl rfl)
+
 theorem applyAct_inv (w : World) (a : Act) (h : WInv w) : WInv (applyAct w a) := by
   cases a with
+  | cleanup j => exact wSetCb_inv _ j (wCleanup_inv w j h)
+  | init j sod m wd => exact wInitOp_inv w j sod m wd h
+  | tz j m => exact wTz_inv w j m h
   | refresh j => exact wRefresh_inv w j h
   | disable j => exact wDisable_inv w j h
   | enable j => exact wEnable_inv w j h
@@ -341,26 +382,17 @@ theorem wOp_inv (w : World) (o : WOp) (h : WInv w) : WInv (wOp w o).1 := by
       simp only [wOp, hg]
       have h1 := winv_put w j (fresh c) h (fresh_ainv c)
       exact ⟨h1.alarms, h1.watch, h1.log⟩
-  | init j sod m wd =>
+  | init j sod m wd => exact wInitOp_inv w j sod m wd h
+  | initc j x =>
     cases hg : w.get j with
     | none => simp only [wOp, hg]; exact h
-    | some a => simp only [wOp, hg]; exact winv_put w j _ h (initAlarm_ainv a sod m wd (h.alarms j a hg))
-  | tz j m =>
-    cases hg : w.get j with
-    | none => simp only [wOp, hg]; exact h
-    | some a =>
-      simp only [wOp, hg]
-      exact winv_put w j _ h (ainv_congr (b := setTimezone a m) (h.alarms j a hg) rfl rfl rfl rfl rfl rfl)
+    | some a => simp only [wOp, hg]; exact winv_put w j _ h (initCron_ainv a x (h.alarms j a hg))
+  | tz j m => exact wTz_inv w j m h
   | enable j => exact wEnable_inv w j h
   | disable j => exact wDisable_inv w j h
   | refresh j => exact wRefresh_inv w j h
   | cleanup j => exact wCleanup_inv w j h
-  | setCb j =>
-    cases hg : w.get j with
-    | none => simp only [wOp, hg]; exact h
-    | some a =>
-      simp only [wOp, hg]
-      exact winv_put w j _ h (ainv_congr (b := { a with hasCb := true }) (h.alarms j a hg) rfl rfl rfl rfl rfl rfl)
+  | setCb j => exact wSetCb_inv w j h
   | destroy j => exact wDestroy_inv w j h
   | calMask m => exact (wCalUpdate_inv w _ h).1
   | calSp sp => exact (wCalUpdate_inv w _ h).1
